@@ -23,7 +23,9 @@ RULE = (
     "cases = (route in {dict, json, cascade-file}, graph) where the graph is a generated DAG spec (0-12 nodes, unique names over any "
     "unicode text, nodes with default / named / no outputs, terminal nodes with and without outputs, edges from default and named "
     "outputs) or a generated fluent program (from_source over 1-2 dims, map, generator map with yields, reduce); payloads: any "
-    "picklable value for dict, JSON-faithful values for json, module-level callables for the Cascade file; additionally generated "
+    "picklable value for dict, JSON-faithful values for json, module-level callables for the Cascade file; on the dict and json routes "
+    "the graph may have a history: serialised once before, and then renamed in place (by a prefix, or by a rotation of its own names) "
+    "before the round trip under test; additionally generated "
     "unequal pairs (one payload / edge endpoint / output list / extra node changed) on which Graph.__eq__ must answer False; "
     "non-trivial = >=1 terminal node that declares outputs and >=1 edge from a non-default output; distinct = fingerprint of the case"
 )
